@@ -32,11 +32,13 @@ type Eng struct {
 	specs     map[string]*SpecFunc
 	ufs       map[string]*UFDecl
 	lemmas    []*Lemma
+	globals_  []GlobalInv
 	globals   map[*ssa.Global]int64
 	funcs     map[*ssa.Function]int64
 	strings   map[string]int64
 	strDone   map[*VC]map[int64]bool
 	bits      map[string]kb
+	negBit    map[string]*Term
 	effects   map[*ssa.Function][2]bool
 	effBusy   map[*ssa.Function]bool
 	qctr      int
@@ -47,7 +49,7 @@ func NewEng(repo string) *Eng {
 	return &Eng{repo: repo, pkgs: map[string]*ssa.Package{}, tpkgs: map[string]*packages.Package{},
 		contracts: map[string]*FuncContract{}, specs: map[string]*SpecFunc{}, ufs: map[string]*UFDecl{},
 		globals: map[*ssa.Global]int64{}, funcs: map[*ssa.Function]int64{}, strings: map[string]int64{},
-		strDone: map[*VC]map[int64]bool{}, bits: map[string]kb{}, effects: map[*ssa.Function][2]bool{}, effBusy: map[*ssa.Function]bool{}}
+		strDone: map[*VC]map[int64]bool{}, bits: map[string]kb{}, negBit: map[string]*Term{}, effects: map[*ssa.Function][2]bool{}, effBusy: map[*ssa.Function]bool{}}
 }
 
 // Load type-checks the given package patterns (relative to the repo) with tag verif.
@@ -112,6 +114,7 @@ func (e *Eng) Load(patterns []string) error {
 					e.ufs[u.Name] = u
 				}
 				e.lemmas = append(e.lemmas, cf.Lemmas...)
+				e.globals_ = append(e.globals_, cf.Globals...)
 			}
 		}
 	})
@@ -217,7 +220,14 @@ func (e *Eng) constant(fn *ssa.Function, name string) (*big.Int, bool) {
 	if fn == nil || fn.Pkg == nil {
 		return nil, false
 	}
-	obj := fn.Pkg.Pkg.Scope().Lookup(name)
+	return e.constantIn(fn.Pkg, name)
+}
+
+func (e *Eng) constantIn(pkg *ssa.Package, name string) (*big.Int, bool) {
+	if pkg == nil {
+		return nil, false
+	}
+	obj := pkg.Pkg.Scope().Lookup(name)
 	c, ok := obj.(*types.Const)
 	if !ok {
 		return nil, false
@@ -420,7 +430,7 @@ func (e *Eng) verifyFunc(fc *FuncContract, refute bool, unrollK int) (res *FuncR
 		vc.Assume(Le(Int(firstDynObj), a0))
 		dynBase = a0.Name
 	}
-	tr.entry = State{Reach: tTrue, Mem: m0, Alloc: a0}
+	tr.entry = State{Reach: tTrue, Mem: m0, Alloc: a0, Locks: vc.Fresh("L0", SMem)}
 	for _, p := range fn.Params {
 		tr.params = append(tr.params, tr.freshVal("p_"+p.Name(), p.Type(), a0))
 	}
@@ -479,6 +489,16 @@ func (e *Eng) verifyFunc(fc *FuncContract, refute bool, unrollK int) (res *FuncR
 	}
 	for _, c := range fc.Requires {
 		vc.Assume(ctx.fact(c.E))
+	}
+	for _, c := range fc.DataInv {
+		vc.Assume(ctx.fact(c.E))
+	}
+	tr.st = tr.entry
+	tr.assumeGlobals()
+	// ghost lock counters are never negative
+	{
+		o, j := Sym("o!q", SInt), Sym("j!q", SInt)
+		vc.Assume(Forall([]*Term{o, j}, Le(Int(0), Select(Select(tr.entry.Locks, o), j)), Select(Select(tr.entry.Locks, o), j)))
 	}
 	// facts proved by induction on the last variable (from 0), then available as lemmas
 	for _, ind := range fc.Inducts {
@@ -578,11 +598,22 @@ func (tr *FnTr) checkPost(fc *FuncContract, fn *ssa.Function, results []Val, kin
 		tr.vc.Oblige(kind, labelOr(c.Label, i+1), Implies(tr.st.Reach, g), c.Pos)
 		tr.vc.ObligeIdentities(kind, labelOr(c.Label, i+1), c.Pos)
 	}
+	for i, c := range fc.DataInv {
+		g := ctx.goal(c.E)
+		tr.vc.Oblige("datainv", labelOr(c.Label, i+1), Implies(tr.st.Reach, g), c.Pos)
+	}
 	if exc {
 		for i, c := range fc.Panics {
 			g := ctx.goal(c.E)
 			tr.vc.Oblige("panics", labelOr(c.Label, i+1), Implies(tr.st.Reach, g), c.Pos)
 		}
+	}
+	if !tr.refute {
+		lbl := "exit"
+		if exc {
+			lbl = "exc"
+		}
+		tr.lockBalance("lockbalance", lbl, tr.st, tr.entry.Locks)
 	}
 	if (fc.HasModifies || fc.Pure) && !tr.refute {
 		var frame []cellRange
@@ -620,6 +651,7 @@ func (tr *FnTr) exceptionalExit(fc *FuncContract, fn *ssa.Function) {
 			rs = append(rs, live[i].St.Reach)
 			st.Mem = Ite(live[i].St.Reach, live[i].St.Mem, st.Mem)
 			st.Alloc = Ite(live[i].St.Reach, live[i].St.Alloc, st.Alloc)
+			st.Locks = Ite(live[i].St.Reach, live[i].St.Locks, st.Locks)
 		}
 		st.Reach = vc.Def("reach_exc", Or(rs...))
 		st.Mem = vc.Def("mem_exc", st.Mem)
@@ -636,7 +668,7 @@ func (tr *FnTr) exceptionalExit(fc *FuncContract, fn *ssa.Function) {
 		tr.checkPost(fc, fn, res, "postexc", true)
 		return
 	}
-	st := State{Reach: tTrue}
+	st := State{Reach: tTrue, Locks: vc.Fresh("locks_exc", SMem)}
 	st.Alloc = vc.Fresh("alloc_exc", SInt)
 	vc.Assume(Le(tr.entry.Alloc, st.Alloc))
 	if tr.storeChecks {
@@ -697,7 +729,7 @@ func (e *Eng) VerifyLemma(lm *Lemma) *FuncResult {
 		}
 	}
 	m0 := vc.Fresh("M0", SMem)
-	st := State{Reach: tTrue, Mem: m0, Alloc: Int(firstDynObj)}
+	st := State{Reach: tTrue, Mem: m0, Alloc: Int(firstDynObj), Locks: vc.Fresh("L0", SMem)}
 	tr.entry = st
 	ctx := &SpecCtx{tr: tr, st: st, old: st}
 	if len(lm.Split) == 0 {
